@@ -51,6 +51,8 @@ TrQ ==
        \cup {<<"C04", "lookup yielded a link to another peer, from another source, or a self link", S, D>> :
                 <<S, D>> \in {x \in Sources \X (Peers \ {"M2"}) : \E v \in ObsLook(x[1], x[2]) :
                                  v.remote # x[2] \/ (x[1] # "" /\ v.local # x[1]) \/ v.local = v.remote \/ Proj(v) \notin ExpLook(x[1], x[2])}}
+       \cup {<<"C04", "a lookup was handed, at least transiently, a link to another peer, from another source, or a self link", S, D>> :
+                <<S, D>> \in {x \in Sources \X (Peers \ {"M2"}) : Ev.badever[LookKey(x[1], x[2])] > 0}}
        \cup {<<"C04", "a link whose remote peer is the local peer is reported", c, "">> :
                 c \in {x \in Ctrl : \E p \in Peers : \E n \in SeqSet(Ev.rep[x][p]) : Remote(n) = LocalOf[x]}}
        \cup {<<"C04", "self link was not closed", x, "">> : x \in {y \in oestd : Remote(y) = LocalOf[CtrlOf(y)] /\ Ev.closes[y] = 0}}
